@@ -85,6 +85,9 @@ REG_PV = {
     "reserved-anchor": (["anchor=/y"], "invalid"),
     "extra+lt-alpha": (["foo=zzz", "lt=abc"], "invalid"),
     "lt-novalue": (["lt"], "5xx"),
+    # aiocoap's proxying extension (not enabled in the directory under test; only offered to the simple registration,
+    # whose fetch is then addressed differently): expected to be refused, without a defined meaning if accepted
+    "proxy": (["proxy=yes"], "ext"),
 }
 REG_VALID = [k for k, v in REG_PV.items() if v[1] == "valid"]
 REG_SHORT = ["lt60", "lt60", "lt120", "lt1", "lt60+extra", "lt60+base", "plain", "extra", "base-v6"]
@@ -119,6 +122,26 @@ UPD_INVALID = [k for k, v in UPD_PV.items() if v[1] == "invalid"]
 MALFORMED = [b"\xff\xfe</a>", b"garbage", b'</a>;rt="x']
 NLINKSETS = 7
 
+# Simple registration (RFC 9176 5.1): the registrant POSTs ep / d / lt / extra attributes (no body, no base) to
+# /.well-known/rd, the directory fetches the registrant's /.well-known/core and registers what it got under the
+# registrant's address. A parameter variant carrying `base` is invalid here.
+SREG_VALID = [k for k, v in REG_PV.items() if v[1] == "valid" and not any(q.startswith("base=") for q in v[0])]
+SREG_SHORT = ["lt60", "lt60", "lt120", "lt1", "lt60+extra", "plain", "extra"]
+SREG_INVALID = [k for k, v in REG_PV.items() if v[1] == "invalid" or (v[1] == "valid" and any(q.startswith("base=") for q in v[0]))]
+# how the registrant answers the directory's GET /.well-known/core; see Runner.reaction_of
+#   delivery modes (of an answer): piggy (in the ACK), separate (empty ACK, CON response `delay` later), late (first
+#   transmission ignored, the retransmission answered), block16 / block32 (Block2 transfer in 16 / 32 byte blocks)
+REACT_MODES = ["piggy", "piggy", "piggy", "piggy", "separate", "late", "block16", "block32"]
+ERROR_CODES = ["4.04", "4.01", "4.05", "5.00", "5.03"]
+
+
+SREG_WAIT = 100.0  # s the registrant waits for the answer to a simple registration (see ASSUMPTIONS)
+
+
+def sreg_class(pv):
+    opts, cls = REG_PV[pv]
+    return "invalid" if any(q.startswith("base=") for q in opts) and cls == "valid" else cls
+
 
 def linkset(i, tag):
     t = tag
@@ -135,7 +158,7 @@ def linkset(i, tag):
 
 def plan(tier, seed):
     n = 16
-    per = {"quick": 250, "thorough": 11000}[tier]
+    per = {"quick": 220, "thorough": 10000}[tier]
     return [{"name": "c20-%d" % i, "seed": seed * 1000 + i, "index": i, "of": n, "n": per, "tier": tier} for i in range(n)]
 
 
@@ -155,6 +178,32 @@ def gen_body(r, ver):
     return ["nobody-nocf"]
 
 
+def gen_react(r, ver):
+    """-> (reaction of the registrant to the directory's fetch, delivery mode, delay of a separate response)"""
+    x = r.random()
+    if x < 0.50:
+        react = ["links", r.randrange(NLINKSETS), ver]
+    elif x < 0.56:
+        react = ["empty"]
+    elif x < 0.64:
+        react = ["error", r.choice(ERROR_CODES)]
+    elif x < 0.68:
+        react = ["error-with-links", r.choice(ERROR_CODES), r.randrange(NLINKSETS), ver]
+    elif x < 0.74:
+        react = ["cf-text", r.randrange(NLINKSETS), ver]
+    elif x < 0.79:
+        react = ["cf-missing", r.randrange(NLINKSETS), ver]
+    elif x < 0.87:
+        react = ["malformed", r.randrange(len(MALFORMED))]
+    elif x < 0.94:
+        react = ["silence"]
+    elif x < 0.97:
+        react = ["rst"]
+    else:
+        react = ["not-found-there"]  # the registrant has no /.well-known/core: 4.04 to whatever is asked
+    return react, r.choice(REACT_MODES), r.choice([0.5, 3.0, 20.0])
+
+
 def gen_target(r, neps, nsect):
     x = r.random()
     if x < 0.75:
@@ -171,7 +220,20 @@ def gen(r):
     steps = []
     for i in range(n):
         x = r.random()
-        if i == 0 or x < 0.30:
+        if (i == 0 or x < 0.30) and r.random() < 0.32:
+            y = r.random()
+            if y < 0.70:
+                pv = r.choice(SREG_SHORT) if short and r.random() < 0.7 else r.choice(SREG_VALID)
+            elif y < 0.93:
+                pv = r.choice(SREG_INVALID)
+            elif y < 0.98:
+                pv = r.choice(REG_EITHER)
+            else:
+                pv = r.choice(["lt-novalue", "proxy"])
+            shape = "ok" if r.random() < 0.9 else r.choice(["ep-missing", "ep-repeated", "d-repeated", "ep-novalue"])
+            react, mode, delay = gen_react(r, i)
+            steps.append({"op": "sreg", "peer": r.randrange(npeers), "ep": r.randrange(neps), "d": r.randrange(nsect), "shape": shape, "pv": pv, "via": "rd" if r.random() < 0.85 else "wkc", "react": react, "mode": mode, "delay": delay})
+        elif i == 0 or x < 0.30:
             y = r.random()
             if y < 0.62:
                 pv = r.choice(REG_SHORT) if short and r.random() < 0.7 else r.choice(REG_VALID)
@@ -213,6 +275,14 @@ CRITERIA = ["ep-exact", "ep-prefix", "ep-none", "d", "rt-exact", "rt-second", "r
 
 # fixed scripts: acceptance pins and one deterministic witness per understood deviation of the unchanged tree
 _L = lambda i, v=0: ["links", i, v]  # noqa: E731
+
+
+def _S(peer, ep, d, pv, react, mode="piggy", delay=0.5, shape="ok", via="rd", **kw):
+    st = {"op": "sreg", "peer": peer, "ep": ep, "d": d, "shape": shape, "pv": pv, "via": via, "react": react, "mode": mode, "delay": delay}
+    st.update(kw)
+    return st
+
+
 FIXED = {
     "pins": [
         {"op": "reg", "peer": 0, "ep": 0, "d": 0, "shape": "ok", "pv": "plain", "body": _L(0), "must": "accept", "pin": "register-ep"},
@@ -236,6 +306,36 @@ FIXED = {
         {"op": "lookup", "kind": "res", "q": ["crit", "rt-exact", 0], "peer": 0, "szx": None},
         {"op": "lookup", "kind": "ep", "q": ["crit", "d", 0], "peer": 0, "szx": None},
         {"op": "idle", "how": ["boundary", "soonest", 0, "g-1"]},
+        {"op": "idle", "how": ["boundary", "soonest", 0, "g+1"]},
+    ],
+    # simple registration (RFC 9176 5.1): every reaction of the registrant once, re-registration simple-over-simple,
+    # regular-over-simple and simple-over-regular, update / removal through the registration resource, expiry
+    "simple": [
+        _S(0, 0, 0, "plain", ["links", 0, 0], must="accept", pin="simple-register"),
+        _S(1, 1, 1, "lt60+extra", ["links", 2, 0], mode="separate", must="accept", pin="simple-register-ep-d-lt"),
+        _S(2, 2, 0, "lt120", ["links", 3, 0], mode="block16", must="accept", pin="simple-register-blockwise-fetch"),
+        _S(0, 3, 0, "lt60", ["empty"], must="accept", pin="simple-register-no-links"),
+        _S(2, 2, 1, "base-v6", ["links", 1, 0], must="reject", pin="simple-register-with-base"),
+        _S(0, 2, 1, "plain", ["links", 1, 0], shape="ep-missing", must="reject", pin="simple-register-without-ep"),
+        _S(0, 2, 1, "lt-alpha", ["links", 1, 0], must="reject", pin="simple-register-lt-nonnumeric"),
+        _S(0, 2, 1, "plain", ["error", "4.04"], must="refuse", pin="simple-register-fetch-answered-4.04"),
+        _S(1, 2, 1, "plain", ["error-with-links", "5.00", 1, 0], must="refuse", pin="simple-register-fetch-answered-5.00"),
+        _S(0, 2, 1, "plain", ["malformed", 1], must="refuse", pin="simple-register-fetch-unparsable"),
+        _S(0, 2, 1, "plain", ["cf-text", 1, 0], must="refuse", pin="simple-register-fetch-wrong-content-format"),
+        _S(0, 2, 1, "plain", ["rst"], must="refuse", pin="simple-register-fetch-reset"),
+        _S(1, 0, 0, "lt60", ["links", 1, 1], mode="late", must="accept", pin="simple-reregister"),
+        _S(1, 0, 0, "lt120", ["error", "4.04"], must="refuse", pin="simple-reregister-fetch-answered-4.04"),
+        {"op": "reg", "peer": 0, "ep": 1, "d": 1, "shape": "ok", "pv": "lt60+base", "body": _L(0, 1), "must": "accept", "pin": "register-over-simple"},
+        _S(2, 1, 1, "lt120", ["links", 6, 2], via="wkc"),
+        {"op": "post", "peer": 2, "tgt": ["key", 2, 0], "pv": "lt600+extra", "body": "none", "must": "accept", "pin": "update-simple-registration"},
+        {"op": "put", "peer": 0, "tgt": ["key", 3, 0], "pv": "none", "body": _L(1, 1), "must": "accept-or-405", "pin": "update-put-simple-registration"},
+        {"op": "lookup", "kind": "res", "q": ["crit", "href-prefix", 0], "peer": 0, "szx": None},
+        {"op": "del", "peer": 1, "tgt": ["key", 1, 1], "must": "accept", "pin": "delete-simple-registration"},
+        _S(0, 2, 1, "lt60", ["silence"], must="refuse-or-silent", pin="simple-register-fetch-unanswered"),
+        _S(0, 2, 0, "lt60", ["silence"], must="refuse-or-silent", pin="simple-reregister-fetch-unanswered"),
+        {"op": "idle", "how": ["boundary", "soonest", 0, "g-1"]},
+        {"op": "idle", "how": ["boundary", "soonest", 0, "g+1"]},
+        _S(0, 0, 0, "lt1", ["links", 0, 2], mode="separate", delay=20.0),
         {"op": "idle", "how": ["boundary", "soonest", 0, "g+1"]},
     ],
     "w-update-body-params": [
@@ -315,7 +415,7 @@ def mm_kind(mm):
 
 # When several rejected requests could explain an observed lifetime the violation is filed under the first of this
 # order (naming only; the witness lists all of them).
-ALT_ORDER = ["update-post-with-body", "update-put", "update-post", "reregister"]
+ALT_ORDER = ["update-post-with-body", "update-put", "update-post", "reregister", "simple-reregister"]
 
 
 def alt_rank(a):
@@ -337,6 +437,7 @@ class Runner:
         self.nontrivial = False
         self.put_codes = set()
         self.stopped = None
+        self.fetch = None  # the registrant's script for the directory's GET /.well-known/core during a simple registration
 
     # -- plumbing -------------------------------------------------------------------------------------
     async def setup(self):
@@ -364,13 +465,97 @@ class Runner:
         rc = self.rc
         if m is None:
             return
+        if 1 <= m.code <= 31:
+            self._serve(peer, src, m)
+            return
         if m.type == rc.CON and m.code != 0:
             peer.send(src, rc.Msg(rc.ACK, 0, m.mid, b"", (), b""))
         fut = self.waiting.get(m.token) if m.code != 0 else None
         if fut is not None and not fut.done():
             fut.set_result(m)
 
-    async def request1(self, pi, code, segs, queries=(), payload=b"", cf=None, b2=None):
+    # -- the registrant as a server: what the directory gets when it fetches /.well-known/core (RFC 9176 5.1) ------------
+    def reaction_of(self, react, tag):
+        """-> (response code, content-format, payload, links the payload means | None)"""
+        kind = react[0]
+        c = lambda s: (int(s[0]) << 5) | int(s[2:])  # noqa: E731
+        if kind == "links":
+            p = linkset(react[1], "%sv%d" % (tag, react[2] % 3))
+            return c("2.05"), 40, p, self.reflink.parse(p)
+        if kind == "empty":
+            return c("2.05"), 40, b"", []
+        if kind == "error":
+            return c(react[1]), None, b"no", None
+        if kind == "error-with-links":
+            p = linkset(react[2], "%sv%d" % (tag, react[3] % 3)) or b"</z>"
+            return c(react[1]), 40, p, None
+        if kind == "cf-text":
+            p = linkset(react[1], "%sv%d" % (tag, react[2] % 3)) or b"</z>"
+            return c("2.05"), 0, p, None
+        if kind == "cf-missing":
+            # no Content-Format on the answer to a request with Accept: link-format: nothing else can have been meant
+            p = linkset(react[1], "%sv%d" % (tag, react[2] % 3)) or b"</z>"
+            return c("2.05"), None, p, self.reflink.parse(p)
+        if kind == "malformed":
+            return c("2.05"), 40, MALFORMED[react[1]], None
+        return None, None, b"", None  # silence, rst, not-found-there
+
+    def _serve(self, peer, src, m):
+        rc = self.rc
+        f = self.fetch
+        path = [v.decode("utf8", "replace") for v in rc.opt(m, 11)]
+        acc = rc.opt1(m, 17)
+        self.rep.seen("requests_from_the_directory", "%s %s /%s accept=%s%s" % ("CON NON".split()[m.type] if m.type < 2 else "?", rc.code_str(m.code), "/".join(path), "-" if acc is None else rc.uint_value(acc), "" if rc.opt1(m, 23) is None else " block2"))
+
+        def answer(code, opts=(), payload=b""):
+            if m.type == rc.CON:
+                peer.send(src, rc.Msg(rc.ACK, code, m.mid, m.token, tuple(opts), payload))
+            else:
+                peer.send(src, rc.Msg(rc.NON, code, peer.next_mid(), m.token, tuple(opts), payload))
+
+        if f is None or self.peers[f["peer"]] is not peer or src != self.S:
+            self.rep.count("fetch_outside_a_simple_registration")
+            answer((4 << 5) | 4)
+            return
+        first = m.mid not in f["mids"]
+        f["mids"][m.mid] = f["mids"].get(m.mid, 0) + 1
+        f["seen"] += 1
+        kind = f["react"][0]
+        if kind == "silence":
+            return
+        if kind == "rst":
+            peer.send(src, rc.Msg(rc.RST, 0, m.mid, b"", (), b""))
+            return
+        if kind == "not-found-there" or m.code != 1 or path != [".well-known", "core"]:
+            answer((4 << 5) | 4)
+            return
+        code, cf, payload, _links = f["answer"]
+        mode = f["mode"]
+        if mode == "late" and first and len(f["mids"]) == 1:
+            return  # lost on the way: the directory retransmits
+        b2 = rc.opt1(m, 23)
+        opts = []
+        if cf is not None:
+            opts.append((12, rc.uint_bytes(cf)))
+        if mode in ("block16", "block32") or b2 is not None:
+            szx = {"block16": 0, "block32": 1}.get(mode, 6)
+            num = 0
+            if b2 is not None:
+                num, _more, want = rc.block_value(b2)
+                szx = min(szx, want)  # follow-up requests name the size we served; a smaller wish is honoured
+            size = 16 << szx
+            part = payload[num * size : (num + 1) * size]
+            opts.append((23, rc.block_bytes(num, (num + 1) * size < len(payload), szx)))
+            payload = part
+            f["blocks"] += 1
+        if mode == "separate" and m.type == rc.CON and b2 is None:
+            peer.send(src, rc.Msg(rc.ACK, 0, m.mid, b"", (), b""))
+            tok = m.token
+            self.loop.call_later(f["delay"], lambda: peer.send(src, rc.Msg(rc.CON, code, peer.next_mid(), tok, tuple(opts), payload)))
+            return
+        answer(code, opts, payload)
+
+    async def request1(self, pi, code, segs, queries=(), payload=b"", cf=None, b2=None, timeout=20.0):
         rc = self.rc
         peer = self.peers[pi]
         self.tokn += 1
@@ -385,16 +570,16 @@ class Runner:
         self.waiting[tok] = fut
         peer.send(self.S, rc.Msg(rc.CON, code, peer.next_mid(), tok, tuple(opts), payload))
         try:
-            return await self.asyncio.wait_for(fut, 20.0)
+            return await self.asyncio.wait_for(fut, timeout)
         except self.asyncio.TimeoutError:
             return None
         finally:
             self.waiting.pop(tok, None)
 
-    async def request(self, pi, code, segs, queries=(), payload=b"", cf=None, szx=None):
+    async def request(self, pi, code, segs, queries=(), payload=b"", cf=None, szx=None, timeout=20.0):
         """-> (response Msg of the first block | None, complete payload)"""
         rc = self.rc
-        m = await self.request1(pi, code, segs, queries, payload, cf, None if szx is None else (0, False, szx))
+        m = await self.request1(pi, code, segs, queries, payload, cf, None if szx is None else (0, False, szx), timeout=timeout)
         if m is None:
             return None, b""
         body = m.payload
@@ -486,11 +671,12 @@ class Runner:
         now = self.loop.time()
         pre_locs = set(ctx.get("pre_locs", ()))
         expired = self.model.expire(now)
-        for _n, c in ctx.get("cands", ()):
+        cands = list(ctx.get("cands", ()))
+        for _n, c in cands:
             c.expire(now)
         probe = sorted(set(r.loc for r in self.model.live.values()) | pre_locs | set(g.loc for g in self.model.ghosts) | set(self.model.freed[-3:]) | set(r.loc for r in expired))
         obs = await self.observe(probe)
-        for m in [self.model] + [c for _n, c in ctx.get("cands", ())]:
+        for m in [self.model] + [c for _n, c in cands]:
             self.adopt_default_bases(m, obs)
         rep.monitor("lookup_ep_matches_model")
         rep.monitor("lookup_res_matches_model")
@@ -516,12 +702,18 @@ class Runner:
             self.model.prune_refuted(now)
             return
         opclass = ctx.get("opclass", "idle")
+        if "cands_fn" in ctx:
+            # candidates that need the observation (the location a registration that should not exist was given)
+            for name, c in ctx["cands_fn"](obs):
+                c.expire(now)
+                self.adopt_default_bases(c, obs)
+                cands.append((name, c))
         # 1. a request answered 4.xx (5.xx) that was nevertheless (partly) carried out
-        for name, cand in ctx.get("cands", ()):
+        for name, cand in cands:
             if not compare(ref, cand, obs):
-                if ctx["cc"] == 4:
+                if ctx["cc"] in (0, 4):
                     self.viol(
-                        "rejected-%s/%s" % (opclass, name),
+                        "%s-%s/%s" % ("rejected" if ctx["cc"] == 4 else "unanswered", opclass, name),
                         "a %s answered %s changed the directory: %s" % (opclass.replace("-", " "), ctx["code_str"], name.replace("-", " ")),
                         mismatch=[(w, d) for w, d in mm][:3],
                         model_before=ctx.get("before"),
@@ -595,6 +787,8 @@ class Runner:
                 key = "expiry/%s-%s-after-idle" % (which, kind)
         elif ctx.get("cc") == 4:
             key = "rejected-%s/%s-%s" % (opclass, which, kind)
+        elif ctx.get("cc") == 0:
+            key = "unanswered-%s/%s-%s" % (opclass, which, kind)
         elif ctx.get("cc") == 5:
             rep.count("history_ended/unexplained_state_after_5xx")
             raise Stop
@@ -607,7 +801,7 @@ class Runner:
         slept = False
         while True:
             now = self.loop.time()
-            near = [b for b in self.model.boundaries() if b - 0.9 < now < b + 0.5]
+            near = [hi for lo, hi in self.model.windows() if lo - 0.9 < now < hi + 0.5]
             if not near:
                 return slept
             await self.asyncio.sleep(max(near) + 0.5 + 1e-3 - now)
@@ -664,6 +858,10 @@ class Runner:
             self.viol("pin/valid-request-rejected/" + st["pin"], "a canonical valid request was answered %s" % code_str)
         elif must == "reject" and cc != 4:
             self.viol("pin/invalid-request-not-rejected/" + st["pin"], "a canonical invalid request was answered %s instead of 4.xx" % code_str)
+        elif must == "refuse-or-silent" and cc not in (0, 4, 5):
+            self.viol("pin/invalid-request-not-rejected/" + st["pin"], "a registration that cannot be carried out was answered %s" % code_str)
+        elif must == "refuse" and cc not in (4, 5):
+            self.viol("pin/invalid-request-not-rejected/" + st["pin"], "a registration that cannot be carried out was answered %s instead of an error" % code_str)
         elif must == "accept-or-405" and cc != 2 and code_str != "4.05":
             self.viol("pin/valid-request-rejected/" + st["pin"], "a canonical valid request was answered %s (neither 2.xx nor 4.05)" % code_str)
 
@@ -758,6 +956,167 @@ class Runner:
             if cc == 5:
                 rep.count("answered_5xx")
         await self.sweep(ctx)
+
+    async def do_sreg(self, st):
+        """Simple registration (RFC 9176 5.1): POST /.well-known/rd?ep=..&lt=.. without body; the directory fetches the
+        registrant's /.well-known/core (the registrant's reaction is st["react"]) and answers afterwards."""
+        ref, rep = self.ref, self.rep
+        ep, d = EPS[st["ep"]], SECTORS[st["d"]]
+        shape = st["shape"]
+        q = {"ok": ["ep=" + ep], "ep-missing": [], "ep-repeated": ["ep=" + ep, "ep=other"], "d-repeated": ["ep=" + ep, "d=x", "d=y"], "ep-novalue": ["ep"]}[shape]
+        if d is not None and shape != "d-repeated":
+            q.append("d=" + d)
+        q = q + list(REG_PV[st["pv"]][0])
+        has_base = any(x == "base" or x.startswith("base=") for x in q)
+        tag = "s%d%s" % (st["ep"], d or "")
+        react, mode = st["react"], st["mode"]
+        answer = self.reaction_of(react, tag)
+        links = answer[3]
+        key = (ep, d)
+        keyed = shape in ("ok", "ep-repeated", "d-repeated")
+        t_lo = self.loop.time() + 0.001
+        self.model.expire(t_lo)
+        old_lo = self.model.live.get(key) if keyed else None
+        opclass = "simple-reregister" if old_lo is not None else "simple-register-new"
+        before = self.model_summary()
+        pre_locs = [r.loc for r in self.model.live.values()]
+        src = PEERS[st["peer"]]
+        path = [".well-known", "rd"] if st["via"] == "rd" else [".well-known", "core"]
+        self.fetch = f = {"peer": st["peer"], "react": react, "mode": mode, "delay": st["delay"], "answer": answer, "mids": {}, "seen": 0, "blocks": 0}
+        try:
+            # an unanswered fetch costs the directory up to MAX_TRANSMIT_WAIT (93 s) of virtual time before it can answer
+            m, _body = await self.request(st["peer"], 2, path, q, b"", None, timeout=SREG_WAIT)
+        finally:
+            self.fetch = None
+        t_hi = self.loop.time()
+        slack = max(0.0, t_hi - t_lo)
+        cc, code_str = self.note(st, {"POST": "/" + "/".join(path), "from": "%s:%d" % src, "query": q, "registrant_answers_fetch_with": react + ([mode] if answer[0] is not None else []), "fetch_requests_seen": f["seen"], "took": round(slack, 3)}, m)
+        rkind = react[0] + ("/" + mode if answer[0] is not None else "")
+        self.sig.append((opclass, shape, st["pv"], st["via"], rkind, cc))
+        rep.seen("acceptance", "%s/%s/%s/fetch:%s -> %s" % (opclass, shape, sreg_class(st["pv"]), react[0], code_str))
+        rep.seen("simple_registration_reactions", "%s -> %s" % (rkind, code_str))
+        rep.count("simple_registration_fetches_seen", f["seen"])
+        if f["blocks"] > 1:
+            rep.count("simple_registration_fetched_blockwise")
+        self.pin(st, cc, code_str)
+        if old_lo is not None:
+            self.nontrivial = True
+        if cc == 0:
+            if react[0] == "silence" and f["seen"] > 0:
+                # A registrant that does not answer the directory's fetch may be left without an answer (aiocoap
+                # drops what it was doing for a peer it found unreachable). Nothing was answered, nothing is
+                # registered: the directory is compared with the unchanged model below.
+                rep.count("simple_registration_unanswered_after_unanswered_fetch")
+            else:
+                self.viol("no-response/" + opclass, "a simple registration got no response within %d s although the registrant answered the directory's fetch" % SREG_WAIT)
+                raise Stop
+        # the model's "now" follows the virtual clock: what expired while the directory was fetching is gone
+        self.model.expire(t_hi)
+        old = self.model.live.get(key) if keyed else None
+        # the registration the request met may have run out while the directory was fetching: then both "kept the
+        # location" and "is a new registration" are right
+        ambiguous = old_lo is not None and (old is None or old_lo.expiry(self.grace) < t_hi + 0.5)
+        ctx = {"kind": "op", "opclass": opclass, "cc": cc, "code_str": code_str, "write": True, "before": before, "pre_locs": pre_locs}
+        if cc == 2:
+            rep.monitor("location_rules")
+            if shape != "ok" or links is None or has_base or f["seen"] == 0 or REG_PV[st["pv"]][1] == "ext":
+                rep.count("history_ended/accepted_request_without_defined_meaning")
+                rep.seen("accepted_uninterpretable", "simple/%s/%s/%s" % (shape, st["pv"], react[0]))
+                raise Stop
+            # 2.04 carries no location (RFC 9176 5.1): the registrant learns it from the endpoint lookup
+            code, listed, _raw = await self.get_links(st["peer"], self.ep_path)
+            if not isinstance(listed, list):
+                self.viol("lookup-ep/unusable-after-" + opclass, "the endpoint lookup after an accepted simple registration: %s" % (listed,))
+                raise Stop
+            mine = [self.norm_href(l.href) for l in listed if self.reflink.targets(l, "ep") == [ep] and (self.reflink.targets(l, "d") == ([d] if d is not None else []))]
+            if not mine:
+                self.viol("lookup-ep/missing-after-" + opclass, "a simple registration of %r was answered %s, but the endpoint lookup does not list it" % (key, code_str), lookup=ref.canon_ep(listed)[:8])
+                raise Stop
+            if len(mine) > 1:
+                self.viol("location/two-registrations-for-one-ep-d", "the endpoint lookup lists two registrations with the same endpoint name and sector", lookup=ref.canon_ep(listed)[:8])
+                raise Stop
+            loc = mine[0]
+            segs = loc[1:].split("/")
+            self.locsegs.setdefault(loc, segs)
+            if old is not None and loc == old.loc:
+                pass
+            elif old is not None and not ambiguous:
+                self.viol("location/reregistration-changed-location", "re-registering (ep, d) = %r by simple registration put it at %s, the registration was at %s" % (key, loc, old.loc))
+            else:
+                if ambiguous and old_lo is not None and loc == old_lo.loc:
+                    rep.count("simple_reregistration_while_old_one_ran_out")
+                other = self.model.at(loc)
+                if other is not None and other.key != key:
+                    self.viol("location/shared-by-distinct-registrations", "the new registration %r got location %s of the live registration %r" % (key, loc, other.key))
+                    raise Stop
+                if loc in self.model.freed:
+                    rep.count("location_reused_after_free")
+                    holders = [k for k, v in self.client_loc.items() if v[0] == loc and k != key]
+                    if holders:
+                        rep.count("location_reused_while_remembered_for_another_ep_d")
+                        if JUDGE_LOCATION_REUSE:
+                            self.viol("location/freed-location-reused-for-another-ep-d", "the location %s, still remembered by the registrant of %r (removed or expired), was given to the new registration %r: that registrant's next update or removal acts on the other registration" % (loc, holders[0], key))
+            try:
+                self.model.register(key, loc, ref.parse_query(q), links, src, t_hi, slack=slack)
+            except ref.Unappliable:
+                rep.count("history_ended/accepted_request_without_defined_meaning")
+                rep.seen("accepted_uninterpretable", "simple/%s/%s/%s" % (shape, st["pv"], react[0]))
+                raise Stop
+            self.client_loc[key] = (loc, self.locsegs[loc])
+        else:
+            if old is not None:
+                # had the request been carried out although it was refused, at some instant of [t_lo, t_hi]
+                lt = self._alt_lt(q, ref.DEFAULT_LT)
+                old.alts.append((t_hi, lt, opclass))
+                if slack > 0.01:
+                    old.alts.append((t_lo, lt, opclass))
+            if cc == 5:
+                rep.count("answered_5xx")
+            offered = None
+            if answer[0] is not None and answer[2]:
+                try:
+                    offered = self.reflink.parse(answer[2])
+                except self.reflink.Malformed:
+                    offered = None
+
+            def cands_fn(obs, key=key, keyed=keyed):
+                out = []
+                cur = self.model.live.get(key) if keyed else None
+                if cur is not None:
+                    c = self.model.clone()
+                    c.remove(c.live[key])
+                    out.append(("old-registration-removed", c))
+                if not keyed or not isinstance(obs["ep"], list):
+                    return out
+                if cur is not None:
+                    loc = cur.loc
+                else:
+                    there = [h for h, a in obs["ep"] if dict(a).get("ep") == key[0] and dict(a).get("d") == key[1] and ("d" in dict(a)) == (key[1] is not None)]
+                    if len(there) != 1:
+                        return out
+                    loc = there[0]
+                    self.locsegs.setdefault(loc, loc[1:].split("/"))
+                for ls, nm in ((offered, "registered"), ([], "registered-without-links")):
+                    if ls is None or (nm == "registered" and ls == []):
+                        continue
+                    for lenient, suffix in ((False, ""), (True, "-with-part-of-the-parameters")):
+                        c = self.model.clone()
+                        try:
+                            c.register(key, loc, ref.parse_query(q), ls, src, t_hi, lenient=lenient, slack=slack)
+                            out.append((nm + suffix, c))
+                        except ref.Unappliable:
+                            pass
+                return out
+
+            ctx["cands_fn"] = cands_fn
+        # the answer may have come at an instant at which the liveness of another registration is not sampled
+        await self.settle()
+        await self.sweep(ctx)
+        rep.monitor("simple_registration")
+        if cc == 2:
+            rep.monitor("simple_registration_listed")
+        elif links is None or f["seen"] == 0:
+            rep.monitor("simple_registration_failed_fetch")
 
     def _alt_lt(self, q, fallback):
         vals = [v for (k, v) in self.ref.parse_query(q) if k == "lt"]
@@ -954,6 +1313,8 @@ class Runner:
                 op = st["op"]
                 if op == "reg":
                     await self.do_reg(st)
+                elif op == "sreg":
+                    await self.do_sreg(st)
                 elif op in ("post", "put", "del"):
                     await self.do_update(st)
                 elif op == "idle":
